@@ -56,6 +56,27 @@ def bq_packer(ctx, rule):
               'the packer does not append exactly one native-endian u64 word per chunk of 64 components (writes: %s)' % [short(c.callee) for c in writes])
 
 
+def bq_entry_points(ctx, rule):
+    """BinaryQuantized::from_slice / from_vec hand exactly the caller's components to the packer (no padding values)"""
+    F = ctx.F
+    BQ = 'unaligned_vector::binary_quantized::BinaryQuantized'
+    for meth, callee_suffix in (('from_slice', 'from_slice_non_optimized'), ('from_vec', '::from_slice')):
+        f = F.impl_method('UnalignedVectorCodec', BQ, meth)
+        if not ctx.need(f is not None, rule, 'BinaryQuantized::' + meth):
+            continue
+        calls = [c for c in f.calls() if c.callee.endswith(callee_suffix)]
+        good = len(calls) >= 1
+        for c in calls:
+            a = strip(c.arg_term(0))
+            while a[0] == 'call' and a[1].endswith(('Deref::deref', 'Vec::<T, A>::as_slice', 'AsRef::as_ref', 'Borrow::borrow')):
+                a = strip(a[2][0])
+            good = good and a[0] == 'arg' and a[1] == 1
+        muts = [short(c.callee) for c in f.calls() if c.callee.endswith(('Vec::<T, A>::resize', 'Vec::<T, A>::push', 'Vec::<T, A>::extend', 'Vec::<T, A>::truncate', 'Vec::<T, A>::insert',
+                                                                        'Vec::<T, A>::extend_from_slice', 'Vec::<T, A>::resize_with', 'Vec::<T, A>::append', 'Vec::<T, A>::pop', 'Vec::<T, A>::clear'))]
+        ctx.check(good and not muts, rule, 'BinaryQuantized::' + meth, f.loc(), 'quantises exactly the caller\'s components (padding bits stay 0)',
+                  'BinaryQuantized::%s does not hand the caller\'s components unchanged to the packer (%s): padding components would set padding bits, which count as differing signs against vectors quantised through the other path' % (meth, muts or 'argument is not the parameter'))
+
+
 def is_dimensions(t):
     """the declared dimension of the handle: a `dimensions` field or `dimensions()` call rooted at a parameter/capture"""
     from rules import root
